@@ -33,11 +33,13 @@ type scheduler struct {
 	nlive    int
 	switches int
 	enabled  bool // scheduling decisions at yield points (otherwise run-to-block)
+	preemptBound int // -1 = unbounded
+	preemptions  int
 }
 
 func (i *interpreter) resetSched() {
 	main := &thread{id: 0, wake: make(chan struct{}, 1)}
-	i.sched = scheduler{threads: []*thread{main}, cur: main, exited: make(chan struct{}, 64)}
+	i.sched = scheduler{threads: []*thread{main}, cur: main, exited: make(chan struct{}, 64), preemptBound: -1}
 }
 
 func (t *thread) runnable() bool {
@@ -167,7 +169,14 @@ func (i *interpreter) pickNext(cur *thread, why string) *thread {
 		// run-to-block: keep the current thread if it can run, else lowest id
 		return cands[0]
 	}
+	// bounded preemption: once the bound is used up a thread that can continue is not preempted
+	if cur != nil && cur.runnable() && s.preemptBound >= 0 && s.preemptions >= s.preemptBound {
+		return cur
+	}
 	k := i.choice(len(cands), "sched:"+why)
+	if cur != nil && cur.runnable() && cands[k] != cur {
+		s.preemptions++
+	}
 	return cands[k]
 }
 
